@@ -28,6 +28,23 @@ def readNextPosition (r : FileReader) : Option ((Nat × Nat) × FileReader) :=
   | none => none
   | some len => some ((r.start, len), { r with start := r.start + len })
 
+/-- `read_next`: the frame at `start` (length prefix and body), read with one `file.read` of the frame's length from
+`start` (where `read_len` has put the handle back); a file that ends inside the frame is an error -/
+def readNext (r : FileReader) : Option (List Nat × FileReader) :=
+  match readLen r with
+  | none => none
+  | some len =>
+    let data := (r.file.drop r.start).take len
+    if data.length < len then none else some (data, { r with start := r.start + len })
+
+/-- `read_next` until it fails, at most `fuel` times (the loops of the catalogue, snapshot and transfer readers) -/
+def readAll : Nat → FileReader → List (List Nat)
+  | 0, _ => []
+  | f + 1, r =>
+    match readNext r with
+    | none => []
+    | some (d, r') => d :: readAll f r'
+
 /-- `read_index_position(index)`: skip `index` frames, return the next one's (position, len). -/
 def readIndexPosition : Nat → FileReader → Option ((Nat × Nat) × FileReader)
   | 0, r => readNextPosition r
